@@ -271,6 +271,7 @@ func checkPaths(rt *rapid.T, cols []colSpec, rows int) {
 		pre := rapid.SliceOfN(rapid.Byte(), 0, 20).Draw(rt, "queued-before")
 		post := rapid.SliceOfN(rapid.Byte(), 0, 20).Draw(rt, "queued-after")
 		preChain := rapid.Bool().Draw(rt, "before-is-chainwrite")
+		preInBuffer := rapid.IntRange(0, 2).Draw(rt, "before-is-in-the-writers-buffer") == 0
 		// Block path.
 		_, inA := libInput(cols, false)
 		_, inB := libInput(cols, false)
@@ -283,9 +284,13 @@ func checkPaths(rt *rapid.T, cols []colSpec, rows int) {
 		want.PutRaw(post)
 		s := &sink{failAt: -1}
 		w := proto.NewWriter(s, new(proto.Buffer))
-		if preChain {
+		switch {
+		case preInBuffer:
+			// the writer is created over a buffer that already holds the bytes
+			w = proto.NewWriter(s, &proto.Buffer{Buf: append([]byte(nil), pre...)})
+		case preChain:
 			w.ChainWrite(pre)
-		} else {
+		default:
 			w.ChainBuffer(func(b *proto.Buffer) { b.PutRaw(pre) })
 		}
 		if err := safely(func() error { return blk.WriteBlock(w, rev, inB) }); err != nil {
@@ -313,7 +318,11 @@ func checkPaths(rt *rapid.T, cols []colSpec, rows int) {
 			a.Column().EncodeColumn(&eb)
 			s2 := &sink{failAt: -1}
 			w2 := proto.NewWriter(s2, new(proto.Buffer))
-			w2.ChainBuffer(func(bb *proto.Buffer) { bb.PutRaw(pre) })
+			if preInBuffer {
+				w2 = proto.NewWriter(s2, &proto.Buffer{Buf: append([]byte(nil), pre...)})
+			} else {
+				w2.ChainBuffer(func(bb *proto.Buffer) { bb.PutRaw(pre) })
+			}
 			b.Column().WriteColumn(w2)
 			if _, err := w2.Flush(); err != nil {
 				rt.Fatalf("flush: %v", err)
